@@ -489,6 +489,20 @@ func (ex *Exec) applyCall(st *State, fr *Frame, c *ssa.CallCommon, fc *FuncContr
 		}
 		env.vars[fmt.Sprintf("arg%d", i)] = CV{T: a}
 	}
+	if !fnv.IsZero() {
+		// a call through a function value: the contract of its function type may speak about the value itself
+		env.vars["fnvalue"] = CV{T: fnv}
+	}
+	if callee != nil && fc.Kind != "extern" {
+		// the callee's contract may name parameters by the names they had when it was written
+		if snap, ok := w.sigs[callee.String()]; ok && len(snap.Params) == len(callee.Params) {
+			for i, old := range snap.Params {
+				if _, have := env.vars[old]; !have && i < len(args) && i < len(names) {
+					env.vars[old] = env.vars[names[i]]
+				}
+			}
+		}
+	}
 	// explicit, listed assumptions of the caller at this call site (`at <callee> assumes ...`)
 	if extra := ex.fc.CallAsserts[fc.Name]; len(extra) > 0 && len(st.frames) == 1 {
 		cenv := env.child()
